@@ -351,6 +351,7 @@ class Interp:
         self._with_stack: List[List[Any]] = []
         self._gen_current: Any = None
         self._handling: List[Dict[str, Any]] = []
+        self._catching_attr_error = 0
         self._ctx_yield: List[Tuple[int, Any]] = []
         self._ctx_running: Any = None
         from . import extlib  # late import (extlib uses this module's names)
@@ -1108,6 +1109,22 @@ class Interp:
             v = self.eval(st.value, env, mi)
             if v is BOTTOM:
                 return ("raise", None)  # the exception raised inside the callee propagates
+            # `y.div_(c)` as a statement: an in-place tensor method updates its receiver, i.e. the
+            # variable (or attribute) now denotes the updated tensor
+            c_ = st.value
+            if isinstance(c_, ast.Call) and isinstance(c_.func, ast.Attribute) and c_.func.attr.endswith("_") and not c_.func.attr.endswith("__") and ((isinstance(v, TV) and v.kind == "tensor") or isinstance(v, Gamma)):
+                recv = c_.func.value
+                if isinstance(recv, ast.Name):
+                    ok_, cur_ = env.lookup(recv.id)
+                    if ok_ and ((isinstance(cur_, TV) and cur_.kind == "tensor") or isinstance(cur_, Gamma)):
+                        env.set(recv.id, v)
+                elif isinstance(recv, ast.Attribute):
+                    try:
+                        holder = self.eval(recv.value, env, mi)
+                    except Unsupported:
+                        holder = None
+                    if isinstance(holder, Obj) and isinstance(holder.attrs.get(recv.attr), TV) and holder.attrs[recv.attr].kind == "tensor":
+                        holder.attrs[recv.attr] = v
             return None
         if isinstance(st, ast.Assign):
             v = self.eval(st.value, env, mi)
@@ -1275,7 +1292,16 @@ class Interp:
             return (kind, val) if not (kind == "return" and val is BOTTOM) else ("raise", None)
         if isinstance(st, ast.Try):
             mark = len(self.events)
-            kind, val = self.exec_stmts(list(st.body), env, mi, lambda e: ("next", None))
+            hnames = set()
+            for h_ in st.handlers:
+                for x_ in (h_.type.elts if isinstance(h_.type, ast.Tuple) else ([h_.type] if h_.type is not None else [])):
+                    hnames.add((_dotted(x_) or "").split(".")[-1])
+            catches_attr = "AttributeError" in hnames
+            self._catching_attr_error += 1 if catches_attr else 0
+            try:
+                kind, val = self.exec_stmts(list(st.body), env, mi, lambda e: ("next", None))
+            finally:
+                self._catching_attr_error -= 1 if catches_attr else 0
             raised = kind == "return" and val is BOTTOM
             out: Optional[Tuple[str, Any]] = None
             if raised:
@@ -2284,6 +2310,11 @@ class Interp:
                 return v.attrs
             if not v.open_attrs:
                 return Unknown(f"{v.cls_name} has no attribute {attr}")
+            if self._catching_attr_error and v.term is None and attr not in MODULE_API and not attr.startswith("__"):
+                # EAFP: inside `try: ... except AttributeError`, an attribute that an abstract object built by a
+                # rule does not have is missing (the object's data attributes are all explicit)
+                self.log("raise", node, exc="AttributeError", chain=["AttributeError", "Exception", "BaseException"])
+                return BOTTOM
             return self.ext.obj_attr(self, v, attr, node)
         if isinstance(v, TV):
             return self.ext.tensor_attr(self, v, attr, node)
@@ -2765,6 +2796,14 @@ _EXC_PARENT = {
     "ArithmeticError": "Exception", "OSError": "Exception", "FileNotFoundError": "OSError", "ImportError": "Exception",
     "ModuleNotFoundError": "ImportError", "NameError": "Exception", "UnicodeError": "ValueError", "RecursionError": "RuntimeError",
     "Exception": "BaseException",
+}
+
+
+MODULE_API = {
+    "named_modules", "modules", "named_parameters", "parameters", "children", "named_children", "apply", "state_dict", "load_state_dict",
+    "train", "eval", "to", "float", "half", "double", "bfloat16", "requires_grad_", "zero_grad", "forward", "register_buffer",
+    "register_parameter", "register_module", "add_module", "get_submodule", "get_parameter", "buffers", "named_buffers", "cuda", "cpu",
+    "type", "extra_repr", "register_forward_hook", "register_forward_pre_hook", "register_full_backward_hook", "share_memory",
 }
 
 
